@@ -1,5 +1,6 @@
 import PsiModel.StagesExt
 import Drivers.Common
+import Drivers.StagesExt2
 /-!
 Driver of the `StagesExt` model (EXT12; reached through `psidriver stages`, every line starts with `x`).
 Symbolic cells: `N` NaN, `X k` input column k, `R k` input row k, `A lo hi` mean of rows [lo, hi),
@@ -20,6 +21,7 @@ Symbolic cells: `N` NaN, `X k` input column k, `R k` input row k, `A lo hi` mean
   `xep <kind> <k>`           detrend: k epochs, kind `plain` | `pd<ndim>`  → `ok <blocks>` | `err <E>`
   `xany`                     broadcast: one object                     → `ok j:id|…`
 A 1-D block is `s0;ch;n;cells` (`_;_;n;cells` for a plain array).
+Lines `xband/xbpush/xcap/xcq/xcpush/xinfo/xipairs/xievents`: see Drivers/StagesExt2.lean.
 -/
 namespace Psi.Driver.StagesExt
 open Psi.Driver Psi.Stages Psi.StagesExt
@@ -74,6 +76,7 @@ structure St where
   annotated : Bool := false
   pos : Nat := 0          -- index of the next input column / row / epoch / block
   s0 : Int := 0           -- s0 of the next chunk
+  ext2 : Psi.Driver.StagesExt2.St := {}   -- `rms_band`, `capture`, `events_to_info` (Drivers/StagesExt2.lean)
 
 def mk1 (s : St) (len : Nat) (gap : Int) : P1 :=
   { data := (List.range len).map fun i => Cell.x (s.pos + i), s0 := s.s0 + gap,
@@ -247,6 +250,9 @@ def step (s : St) (ws : List String) : St × String :=
     | some k => epochs s kind k
     | none => (s, "bad-op")
   | ["xany"] => anyObj s
-  | _ => (s, "bad-op")
+  | _ =>
+    -- every other `x…` line belongs to the second extension (Drivers/StagesExt2.lean)
+    let r := Psi.Driver.StagesExt2.step s.ext2 ws
+    ({ s with ext2 := r.1 }, r.2)
 
 end Psi.Driver.StagesExt
